@@ -61,7 +61,7 @@ class C07(Check):
     chunk = 1000
     matchers = {'uuid_ids': uuid_ids}
     rule = (
-        "cases: call plans of 1..4 logical calls (method of the 14-method registry or an unknown one, positional list or named mapping "
+        "cases: call plans of 1..4 logical calls (method of the 15-method registry or an unknown one, positional list or named mapping "
         "incl. non-binding shapes, call or notification, pooled JSON values as arguments) executed through a notation {call, __call__, "
         "proxy attribute, hand-built Request + send, notify; batch add/notify, batch(...)(...), batch[...], batch.proxy, hand-built "
         "BatchRequest + batch.send} (each only where it can express the plan) and, for the interchangeability clause, through a second "
